@@ -688,6 +688,8 @@ int main(int argc, char** argv)
     pair<std::string, const char*>("std::string <- const char*");
     pair<std::string, std::string>("std::string <- std::string");
     pair<int*, int*>("int* <- int*");
+    pair<const int*, int*>("const int* <- int*");
+    pair<SecondBase*, Derived*>("pointer to a base at non-zero offset <- pointer to derived");
 #elif VF_GROUP == 5
     pair<int, Lend>("int <- class with ref-qualified conversion operators");
     pair<Taker, Giver>("trivially copyable class <- class (copy or move converting constructor)");
